@@ -9,7 +9,7 @@ PROPS="${*:-C01 C02 C03 C04 C05 C06 C07 C08 C09 C10 C11 C12 C13 C14 C15 C16 C17 
 W="$(mktemp -d /tmp/ben-XXXXXX)"; rmdir "$W"
 git -C /repo worktree add -q --detach "$W" "$BASE" || exit 2
 cd "$W" || exit 2
-git apply "$D/patch.diff" || { echo "PATCH DOES NOT APPLY"; cd /; git -C /repo worktree remove --force "$W"; exit 2; }
+git apply "$D/${PATCH:-patch.diff}" || { echo "PATCH DOES NOT APPLY"; cd /; git -C /repo worktree remove --force "$W"; exit 2; }
 git -c user.name=t -c user.email=t@t commit -qam benign
 for c in $(git -C /repo log --reverse --format=%h "$BASE"..main); do
   case " ${SKIP:-} " in *" $c "*) echo "skipping $c"; continue;; esac
